@@ -3,6 +3,8 @@ package vsync
 import (
 	"fmt"
 	"hash/fnv"
+	"os"
+	"runtime"
 	"strings"
 	"testing"
 	"testing/synctest"
@@ -19,6 +21,7 @@ type Exec struct {
 	Diverged   string
 	Panics     []string
 	Leaked     string // synctest complaint about goroutines left behind
+	Hung       bool   // wedged (see runOnce); abandoned
 	Pruned     bool   // stopped at a state already explored with at least this preemption budget
 	Steps      int
 	Preempt    int
@@ -60,6 +63,12 @@ type Config struct {
 	// choice costs one unit of Bound, including switches made while the running
 	// thread is blocked (which are free under preemption bounding).
 	Delay bool
+	// UnlockYield makes Unlock a scheduling point (needed when the code under
+	// test uses TryLock).
+	UnlockYield bool
+	// DrainOnPrune runs pruned executions to their end instead of unwinding
+	// their threads (for harnesses that include un-instrumented frameworks).
+	DrainOnPrune bool
 	// NoCache disables happens-before state caching (every schedule within
 	// the bound is then executed to the end).
 	NoCache bool
@@ -91,6 +100,7 @@ type Result struct {
 	Violations       []Violation
 	NViolations      int // violating executions (Violations keeps the first 20)
 	Pruned           int // executions cut at an already-explored state
+	Hangs            int // executions abandoned by the watchdog
 	Samples          [][]string
 	NondetErrors     []string
 	Cap              string
@@ -104,7 +114,9 @@ func RunOnce(t *testing.T, cfg *Config, prefix []Point) *Exec {
 
 func runOnce(t *testing.T, cfg *Config, prefix []Point, visited map[uint64]int8, noTrace bool) *Exec {
 	x := &Exec{}
-	func() {
+	done := make(chan struct{})
+	go func() {
+		defer close(done)
 		defer func() {
 			if r := recover(); r != nil {
 				x.Leaked = fmt.Sprint(r)
@@ -116,7 +128,8 @@ func runOnce(t *testing.T, cfg *Config, prefix []Point, visited map[uint64]int8,
 				s.MaxStep = cfg.MaxStep
 			}
 			s.Horizon = cfg.Horizon
-			s.Visited, s.Bound, s.NoTrace, s.Delay = visited, cfg.Bound, noTrace, cfg.Delay
+			s.Visited, s.Bound, s.NoTrace, s.Delay, s.UnlockYield = visited, cfg.Bound, noTrace, cfg.Delay, cfg.UnlockYield
+			s.DrainOnPrune = cfg.DrainOnPrune
 			s.Run(cfg.Body)
 			x.Pruned = s.Pruned
 			x.Points, x.Trace, x.Log = s.Points, s.Trace, s.Log
@@ -124,12 +137,37 @@ func runOnce(t *testing.T, cfg *Config, prefix []Point, visited map[uint64]int8,
 			x.Steps, x.sigs, x.MaxEnabled = s.Steps, s.StateSigs, s.MaxEnabled
 		})
 	}()
+	// Watchdog (real time, outside the bubble): an execution can wedge when code
+	// that is not instrumented blocks on a real lock held by a parked thread;
+	// synctest.Wait then never returns. Such an execution is abandoned (its
+	// goroutines stay parked), recorded as hung and makes the run non-exhaustive.
+	select {
+	case <-done:
+	case <-time.After(hangTimeout):
+		dumpHang(cfg.Name)
+		active.Store(nil)
+		return &Exec{Hung: true, Points: prefix}
+	}
 	for _, p := range x.Points {
 		if (p.EnvCost || !p.Env && (p.CurEnabled || cfg.Delay)) && p.Chosen > 0 {
 			x.Preempt++
 		}
 	}
 	return x
+}
+
+var hangTimeout = 20 * time.Second
+
+var hangDumped bool
+
+func dumpHang(name string) {
+	if hangDumped {
+		return
+	}
+	hangDumped = true
+	buf := make([]byte, 1<<20)
+	buf = buf[:runtime.Stack(buf, true)]
+	_ = os.WriteFile(fmt.Sprintf("/tmp/vsync-hang-%d.txt", os.Getpid()), append([]byte("scenario "+name+"\n"), buf...), 0o644)
 }
 
 type item struct {
@@ -168,6 +206,14 @@ func Explore(t *testing.T, cfg *Config) *Result {
 			res.Executions++
 			if x.Pruned {
 				res.Pruned++
+			}
+			if x.Hung {
+				res.Hangs++
+				if res.Hangs >= 3 {
+					capped, res.Cap = true, "3 wedged executions (uninstrumented lock held by a parked thread)"
+					break
+				}
+				continue
 			}
 			res.Transitions += x.Steps
 			for k := range x.sigs {
@@ -295,6 +341,6 @@ func Explore(t *testing.T, cfg *Config) *Result {
 	}
 	res.States = len(states)
 	res.DistinctOutcomes = len(outcomes)
-	res.Exhaustive = !capped && res.BoundCompleted == cfg.Bound
+	res.Exhaustive = !capped && res.BoundCompleted == cfg.Bound && res.Hangs == 0
 	return res
 }
